@@ -802,9 +802,10 @@ def oracle_c18(world, result):
         if p_fin and np.isnan(loss):
             V.append({"clause": "c18.loss_nan", "detail": f"step {s['t']}: parameters finite but the batch loss is NaN (fault row in batch: {le[li]['has_fault_row']})"})
             break
-        if p_fin and np.isfinite(loss) and abs(loss) > HUGE_LOSS:
-            # astronomically large but finite loss: its true gradient may exceed float32 range;
-            # overflow is not the branch-selection defect the property is about
+        if p_fin and np.isfinite(loss) and abs(loss) > HUGE_LOSS and not any(np.any(np.isnan(g)) for g in s["grads"]):
+            # astronomically large but finite loss whose gradient leaves are finite or +-inf: the true
+            # gradient may simply exceed float32 range; overflow is not the branch-selection defect the
+            # property is about. (NaN gradient leaves are still judged below.)
             P["vacuous_huge_loss"] = P.get("vacuous_huge_loss", 0) + 1
             continue
         if p_fin and np.isfinite(loss):
